@@ -32,11 +32,13 @@ Definition is_space (b : byte) : bool :=
   (bZ b =? 32) || (bZ b =? 9) || (bZ b =? 10) || (bZ b =? 13).
 
 (* ---- tokens ---- *)
+(* rev_append _ [] is List.rev computed in linear time (List.rev is quadratic: a 10 kB token
+   took a second to reverse) *)
 Fixpoint split_ws_aux (l : bytes) (cur : bytes) (acc : list bytes) : list bytes :=
   match l with
-  | [] => rev (if cur then acc else rev cur :: acc)
+  | [] => rev_append (if cur then acc else rev_append cur [] :: acc) []
   | b :: r => if is_space b
-              then split_ws_aux r [] (if cur then acc else rev cur :: acc)
+              then split_ws_aux r [] (if cur then acc else rev_append cur [] :: acc)
               else split_ws_aux r (b :: cur) acc
   end.
 Definition split_ws (l : bytes) : list bytes := split_ws_aux l [] [].
@@ -84,12 +86,12 @@ Definition atom (t : bytes) : V :=
 
 Fixpoint build (toks : list bytes) (stack : list (list V)) (cur : list V) : option (list V) :=
   match toks with
-  | [] => match stack with [] => Some (rev cur) | _ => None end
+  | [] => match stack with [] => Some (rev_append cur []) | _ => None end
   | t :: r =>
     if eqb_bytes t (bs "(") then build r (cur :: stack) []
     else if eqb_bytes t (bs ")") then
       match stack with
-      | p :: s => build r s (VL (rev cur) :: p)
+      | p :: s => build r s (VL (rev_append cur []) :: p)
       | [] => None
       end
     else build r stack (atom t :: cur)
